@@ -16,6 +16,10 @@
 //!                                   does not generate fx / dx / px when the repository lacks the hook)
 //!   dp|dx|ds|dc <id>                the user drops its handle
 //!   pp|px|ps|pc <id>                peek at the user's handle: [h; closed; images; d1; d2; d3]
+//!   cs <n>                          what the user's callbacks do from now on: 0 only record their arguments; otherwise every callback
+//!                                   (error handler, on_new_*, image and counter handlers, close handler) calls the client the way
+//!                                   `Aeron` does - lock the conductor's mutex, then 1 add_publication, 2 find_publication,
+//!                                   3 release_publication
 //!   cl                              Agent::on_close
 //!   tk <d>                          advance the clock
 //!   hb <t>                          the driver writes its heartbeat (consumer heartbeat of the ring)
@@ -65,6 +69,38 @@ use vcommon::client::{test_clock, CLOCK_MS};
 
 thread_local! {
     static LOG: RefCell<Vec<String>> = RefCell::new(Vec::new());
+    /// what the user's callbacks do (op `cs`), and the conductor they call
+    static SCRIPT: std::cell::Cell<i64> = std::cell::Cell::new(0);
+    static COND: RefCell<Option<Arc<Mutex<ClientConductor>>>> = RefCell::new(None);
+}
+
+/// set by a callback just before it locks a conductor mutex that `try_lock` says is taken (by its own thread: the harness drives
+/// one thread per case): lets the watchdog report the dead-lock after a short grace period instead of the full time-out
+static DEADLOCK_PENDING: std::sync::atomic::AtomicBool = std::sync::atomic::AtomicBool::new(false);
+
+/// A user callback that calls the client, exactly as `Aeron::add_publication` / `find_publication` or a handle's release do:
+/// `conductor.lock().expect(..)` first, then the `&mut ClientConductor` method.
+fn reenter() {
+    let n = SCRIPT.with(|s| s.get());
+    if n == 0 {
+        return;
+    }
+    let c = match COND.with(|c| c.borrow().clone()) {
+        Some(c) => c,
+        None => return,
+    };
+    if c.try_lock().is_err() {
+        DEADLOCK_PENDING.store(true, Ordering::SeqCst);
+    }
+    let mut g = c.lock().expect("Mutex poisoned");
+    // only reached if the lock were re-entrant
+    let r = match n {
+        1 => g.add_publication(channel(0), 1).map(|_| ()),
+        2 => g.find_publication(1).map(|_| ()),
+        _ => g.release_publication(1),
+    };
+    drop(g);
+    LOG.with(|l| l.borrow_mut().push(format!("CbReentered {} {}", n, if r.is_ok() { 1 } else { 0 })));
 }
 
 fn z(v: i64) -> String {
@@ -77,6 +113,7 @@ fn z(v: i64) -> String {
 
 fn log(s: String) {
     LOG.with(|l| l.borrow_mut().push(s));
+    reenter();
 }
 
 const PORT_BASE: i64 = 20000;
@@ -234,6 +271,8 @@ impl Client {
             false,
         );
         let cm = AtomicBuffer::from_aligned(&counter_metadata);
+        SCRIPT.with(|s| s.set(0));
+        COND.with(|c| *c.borrow_mut() = Some(conductor.clone()));
         Self {
             conductor,
             ring,
@@ -538,6 +577,10 @@ impl Client {
                 CLOCK_MS.fetch_add(a[0] as u64, Ordering::SeqCst);
                 ok_list(&[])
             },
+            "cs" => {
+                SCRIPT.with(|s| s.set(a[0]));
+                ok_list(&[])
+            },
             "hb" => {
                 self.ring.set_consumer_heartbeat_time(a[0]);
                 ok_list(&[])
@@ -666,6 +709,7 @@ fn canon(cbs: Vec<String>) -> Vec<String> {
 }
 
 const WATCHDOG: Duration = Duration::from_millis(3000);
+const DEADLOCK_GRACE: Duration = Duration::from_millis(400);
 
 fn run_case(line: &str, log_file: &str) -> String {
     let (head, body) = line.split_once('|').unwrap_or_else(|| panic!("unknown case kind: {}", line));
@@ -711,8 +755,22 @@ fn run_case(line: &str, log_file: &str) -> String {
         .expect("spawn");
     let mut outs: Vec<String> = Vec::new();
     let mut hung = false;
+    DEADLOCK_PENDING.store(false, Ordering::SeqCst);
     while outs.len() < n {
-        match rx.recv_timeout(WATCHDOG) {
+        // wait for the operation in small slices: a callback that announced its dead-lock is given a short grace period only
+        let t0 = std::time::Instant::now();
+        let got = loop {
+            match rx.recv_timeout(Duration::from_millis(20)) {
+                Err(mpsc::RecvTimeoutError::Timeout) => {
+                    let e = t0.elapsed();
+                    if e >= WATCHDOG || (DEADLOCK_PENDING.load(Ordering::SeqCst) && e >= DEADLOCK_GRACE) {
+                        break Err(mpsc::RecvTimeoutError::Timeout);
+                    }
+                },
+                other => break other,
+            }
+        };
+        match got {
             Ok(s) => {
                 let stop = s.starts_with("(Panic");
                 outs.push(s);
